@@ -130,6 +130,7 @@ class SimBarrier(_Named):
         self._mkname('Barrier')
         self._parties = parties
         self._action = action
+        self._timeout = timeout          # default timeout of wait(), as in threading.Barrier
         self._count = 0
         self._gen = 0
         self._broken = False
@@ -147,6 +148,8 @@ class SimBarrier(_Named):
         return self._broken
 
     def wait(self, timeout=None):
+        if timeout is None:
+            timeout = self._timeout
         _sync('barrier.wait', self.simname)
         if self._broken:
             raise _real_threading.BrokenBarrierError
